@@ -1,6 +1,6 @@
 (* C06 — Everything below the offset returned by Sync survives losing unsynced data (the log-file level). *)
 From KV Require Import Base Model Codec CodecProofs RecoverProofs Durable DurableProofs RecoverCrash RecoverCrashProofs.
-From KV Require Import History CrashDir DurableDelete DurableDeleteProofs.
+From KV Require Import History CrashDir DurableDelete DurableDeleteProofs DurableDeleteChain.
 
 (* power loss keeps some prefix of every file (at least the fsynced length).  For a clean log cut at ANY byte
    n at or after its header: Recover keeps exactly the records that lie entirely below the cut - a prefix of
@@ -168,3 +168,30 @@ Example C06_delete_example :
 Proof.
   split; [vm_compute; reflexivity|]. intros x [<-|[<-|[]]] _ Hn; exfalso; apply Hn; vm_compute; auto.
 Qed.
+
+(* ---------- Delete as a link of the chain: "every file but the two of the writing segment is entirely on stable storage"
+   (sealed_durable), the invariant of Publish / Sync / Close above, is an invariant of Delete too - for the state the
+   model's Delete returns: the writing segment afterwards is the one the Delete created at NextOffset (newest message
+   deleted), or the old one, or the rebased rewrite (and then every file is durable) *)
+Theorem C06_delete_step_keeps_sealed_durable :
+  forall (H : bytes -> Z) st offs st' r t,
+  log_delete H st offs = Ok (st', r) ->
+  sealed_durable (head_base st) t -> sealed_durable (head_base st') (x_run t (delete_full st offs)).
+Proof. exact DurableDeleteChain.delete_step_sealed. Qed.
+Print Assumptions C06_delete_step_keeps_sealed_durable.
+
+(* a Delete in the writing segment that creates no new one leaves EVERY file durable *)
+Theorem C06_head_delete_all_durable :
+  forall st offs t,
+  sealed_durable (head_base st) t -> DurableDeleteChain.head_target st offs = true -> DurableDeleteChain.created st offs = [] ->
+  all_durable (x_run t (delete_full st offs)).
+Proof. exact DurableDeleteChain.head_delete_all_durable. Qed.
+Print Assumptions C06_head_delete_all_durable.
+
+(* non-vacuity, on the example above: the Delete returns a state whose writing segment is at offset 3, and on the table
+   in which the old writing segment was not yet synced every file but 3.log / 3.index ends up durable *)
+Example C06_delete_chain_example :
+  (exists st' r, log_delete c06_hash c06_state [2] = Ok (st', r) /\ head_base st' = 3) /\
+  x_run [mkF (FLog 0) 123 (Some 8); mkF (FIdx 0) 56 (Some 8)] (delete_full c06_state [2]) =
+    [mkF (FLog 0) 85 (Some 85); mkF (FIdx 0) 40 (Some 40); mkF (FLog 3) 8 (Some 0); mkF (FIdx 3) 8 (Some 0)].
+Proof. split; [eexists; eexists; split; vm_compute; reflexivity|vm_compute; reflexivity]. Qed.
